@@ -297,6 +297,10 @@ func checkC13(c *Ctx) {
 	checkLoopTotality(c, "C13.R10.loop-totality", pk, "diff", 30, diffLoopExits)
 	checkAccumulation(c, pk)
 	checkTwinShortcuts(c, "C13.R4.twin-shortcuts", r)
+	checkBothPresent(c, "C13.R4.both-present", r)
+	// an ignore entry must only swallow the difference it was written from (otherwise a later, different
+	// narrowing at the same place is filtered out of the report and of the exit status)
+	checkMatchFields(c, "C13.R6.match-fields", pk)
 	checkComparedAsDeclared(c, pk)
 	// comparisons that every parameter pair goes through
 	c.Rule("C13.R4.unconditional", "in compareParams the description, property, required-ness and simple-schema comparisons run for every parameter pair: no condition and no earlier return guards them", 4)
@@ -869,4 +873,98 @@ func checkComparedAsDeclared(c *Ctx, pk *packages.Package) {
 var diffLoopExits = map[string]string{
 	"diff.getParams › loop over spec.Parameter #1 › conditional store #1": "‹spec.Parameter›.In == ‹string› ⇒ parameters of the location being compared (the caller loops over the five locations)",
 	"diff.getParams › loop over spec.Parameter #2 › conditional store #1": "‹spec.Parameter›.In == ‹string› ⇒ same, operation-level parameters",
+}
+
+
+// checkBothPresent: a difference that is only looked for when the attribute is present (non-nil,
+// non-empty, true) on BOTH sides leaves the one-sided cases — attribute added, attribute removed,
+// default spelled out — to someone else: the same function must emit something under a one-sided
+// trigger over that attribute, otherwise those changes are reported by nobody.
+func checkBothPresent(c *Ctx, rule string, r *goan.Rel) {
+	c.Rule(rule, "an emission triggered by a difference of attribute A under 'A present on both sides' has a sibling emission in the same function under a one-sided trigger over A", 1)
+	pk := r.Pkg
+	directed := func(k string) bool {
+		switch k {
+		case "true1-false2", "false1-true2", "nil1-nonnil2", "nonnil1-nil2", "missing-in-1", "missing-in-2":
+			return true
+		}
+		return strings.HasPrefix(k, "only1:") || strings.HasPrefix(k, "only2:")
+	}
+	inter := func(a, b []string) bool {
+		for _, x := range a {
+			for _, y := range b {
+				if x == y {
+					return true
+				}
+			}
+		}
+		return false
+	}
+	presence := regexp.MustCompile(`^(!=|==) .* (""|nil) $|^nil\?|^(>|==|!=) call len .* 0 $`)
+	// expected count on a correct tree is zero: keep a positive control of the predicate recogniser
+	ctl := presence.MatchString(`!= . § CollectionFormat "" `) && presence.MatchString("nil?. § Default ") && presence.MatchString("> call len § 0 ") && !presence.MatchString("call isArray § ")
+	c.Check(ctl, rule, "positive control › presence predicates are recognised", "", "non-empty / non-nil / len tests match, kind predicates do not", "the recogniser of presence predicates no longer matches the engine's rendering: the rule would pass vacuously")
+	for _, s := range r.Sites {
+		var diffNames, bothNames []string
+		for _, t := range s.Derived {
+			if t.Kind == "neq" || t.Kind == "gt(2>1)" || t.Kind == "lt(2<1)" {
+				diffNames = append(diffNames, t.Names...)
+			}
+		}
+		// presence predicates (nil / empty tests) that hold the same value on both sides
+		type pv struct {
+			v1, v2 string
+			fields []string
+		}
+		preds := map[string]*pv{}
+		for _, a := range s.Atoms {
+			if a.Kind != goan.AUnary || !presence.MatchString(a.Pred) {
+				continue
+			}
+			p := preds[a.Pred]
+			if p == nil {
+				p = &pv{}
+				preds[a.Pred] = p
+			}
+			if a.Side == goan.S1 {
+				p.v1 = a.Val
+			} else if a.Side == goan.S2 {
+				p.v2 = a.Val
+			}
+			p.fields = append(p.fields, a.Fields...)
+		}
+		for _, p := range preds {
+			if p.v1 != "" && p.v1 == p.v2 {
+				bothNames = append(bothNames, p.fields...)
+			}
+		}
+		if len(diffNames) == 0 || len(bothNames) == 0 || !inter(diffNames, bothNames) {
+			continue
+		}
+		var attr []string
+		for _, n := range diffNames {
+			for _, m := range bothNames {
+				if n == m {
+					attr = append(attr, n)
+				}
+			}
+		}
+		ok := false
+		for _, o := range r.Sites {
+			if o.Fn != s.Fn || o == s {
+				continue
+			}
+			for _, t := range o.Derived {
+				if directed(t.Kind) && inter(t.Names, attr) {
+					ok = true
+				}
+			}
+		}
+		code := s.Code
+		if code == "" && s.Param != nil {
+			code = "param:" + s.Param.Name()
+		}
+		c.Check(ok, rule, fmt.Sprintf("diff.%s › %s compared only when present on both sides", s.FnName, strings.Join(attr, ",")), c.posOf(pk, s.Pos), "a sibling emission covers the one-sided cases",
+			fmt.Sprintf("%s is emitted for a difference of %s only when it is present on both sides, and nothing in %s is emitted when it is present on one side only: an attribute that appears, disappears or replaces its default goes unreported", code, strings.Join(attr, ","), s.FnName))
+	}
 }
